@@ -71,6 +71,34 @@ def run(ctx):
             texts[o['id']] = (o.pop('text'), S, E)
             obs.append(o)
     ctx.extra['planted_probes'] = planted
+    # records the decoder's code picks BY NAME (names of the code table mentioned in its source) nested in the window, their
+    # words COPIED from the call's own words in every order: the call part is made of the START arguments and the lookups only
+    import itertools
+    nnested = 0
+    for name in decoders():
+        for other in mine.mined(name)['names']:
+            if other not in pr.w.name_ids:
+                continue
+            S = pr.distinct_words(name, 'start')
+            E = [0] + pr.distinct_words(name, 'end')[1:]
+            base = pr.render(name, S, E, [b'/n0'])
+            pool = list(S) + list(E[1:])
+            perms = list(itertools.permutations(S, 4)) + [tuple(rnd.sample(pool, 4)) for _ in range(12)]
+            for words in perms:
+                for q in (0, 3):
+                    ev = pr.w._mk(other, 'KNOWN' if other not in AUDIT else AUDIT[other].get('cls') or 'SYS0', q, 1, {'x': 0}, words=tuple(words))
+                    t2 = pr.render(name, S, E, [b'/n0'], nested=[ev])
+                    nnested += 1
+                    if base is not None and t2 != base:
+                        ctx.violation('C09/nested-record-changes-call@%s' % name,
+                                      '%s reads %r; with a %s record carrying %s nested in its window it reads %r'
+                                      % (name, base, other, [hex(x) for x in words], t2),
+                                      {'kind': 'render', 'name': name, 'start': [hex(x) for x in S], 'end': [hex(x) for x in E]})
+                        break
+                else:
+                    continue
+                break
+    ctx.extra['nested_named_records'] = nnested
     # SCALE: an operation whose START and END are thousands of records apart (a parked thread, nested interrupts): the
     # call is still rendered from ITS START record
     from .pairing import new_parser
